@@ -24,10 +24,11 @@ SPEC = {
     "min_counts": {"quick": {"evaluations": 150, "kernel_runs": 4000, "leaf_bodies": 20000, "tiled_runs": 1000,
                              "lf_runs": 1000, "uformat_runs": 300, "estimated_shape_runs": 300, "div_tiled_runs": 500,
                              "float_value_runs": 500, "lf_three_on_one_rank_runs": 200,
-                             "right_nested_runs": 300, "long_rank_runs": 500, "tiny_value_runs": 200}},
+                             "right_nested_runs": 300, "long_rank_runs": 500, "tiny_value_runs": 200,
+                             "tiled_twice_runs": 150, "tiled_twice_inner_not_dividing_outer": 60}},
     "assumptions": [
         "integer payloads, leaf default 0 (the idiom's zero-product filter is defined for 0)",
-        "each index variable is tiled at most once (two-level tilings of one rank are not generated); no halos",
+        "in the generated expression families each index variable is tiled at most once; tiles of tiles (one rank tiled twice, inner size dividing the outer one or not) are exercised by a matrix-vector kernel in two loop orders; no halos",
         "explicit zeros in the output are not a difference (content map)",
         "tiling is applied to every operand that carries the index and to the output; results are compared after mapping tile coordinates away",
     ],
@@ -35,6 +36,12 @@ SPEC = {
 
 
 def generate(rng, tier, shard, nshards, mon):
+    # matrix-vector kernels whose reduction rank is tiled twice (tiles of tiles), inner size dividing the outer one or not
+    for j in range((320 if tier == "quick" else 3200) // nshards):
+        M, K = rng.randint(1, 4), rng.randint(1, 13)
+        s1 = rng.randint(2, 10)
+        yield {"kind": "tiled2", "A": [[rng.choice([0, 0, 1, 2, 3, -1, -2]) for _ in range(K)] for _ in range(M)],
+               "B": [rng.choice([0, 1, 2, 3, -1]) for _ in range(K)], "s1": s1, "s2": rng.randint(1, s1), "flow": j % 2}
     n = (640 if tier == "quick" else 6000) // nshards
     fams = kernels.FAMILIES + kernels.FAMILIES3
     for i in range(n):
@@ -93,7 +100,64 @@ def generate(rng, tier, shard, nshards, mon):
         yield {"spec": spec, "tilings": tiles, "divs": divs, "max_orders": 6 if tier == "quick" else 24, "oseed": rng.randrange(1 << 20)}
 
 
+def _run_tiled2(case, mon):
+    """Z[m] = sum_k A[m,k] * B[k] with K tiled by s1 and each tile tiled again by s2, in both operands; two loop orders."""
+    from fibertree import Tensor
+    from fvmon.observe import content
+    A0, B0, s1, s2 = case["A"], case["B"], case["s1"], case["s2"]
+    M, K = len(A0), len(B0)
+    want = {}
+    for m in range(M):
+        v = sum(A0[m][k] * B0[k] for k in range(K))
+        if v != 0:
+            want[(m,)] = v
+    try:
+        a = Tensor.fromUncompressed(rank_ids=["M", "K"], root=A0, shape=[M, K], name="A")
+        b = Tensor.fromUncompressed(rank_ids=["K"], root=B0, shape=[K], name="B")
+        a = a.splitUniform(s1, rankid="K").splitUniform(s2, rankid="K.0")
+        b = b.splitUniform(s1, rankid="K").splitUniform(s2, rankid="K.0")
+        z = Tensor(rank_ids=["M"], shape=[M], name="Z")
+        z_m, b_k2 = z.getRoot(), b.getRoot()
+        bodies = 0
+        if case["flow"] == 0:
+            for m, (z_ref, a_k2) in z_m << a.getRoot():
+                for k2, (a_k1, b_k1) in a_k2 & b_k2:
+                    for k1, (a_k0, b_k0) in a_k1 & b_k1:
+                        for k0, (av, bv) in a_k0 & b_k0:
+                            z_ref += av * bv
+                            bodies += 1
+        else:
+            a = a.swizzleRanks(["K.1", "K.0.1", "M", "K.0.0"])
+            for k2, (a_k1, b_k1) in a.getRoot() & b_k2:
+                for k1, (a_m, b_k0) in a_k1 & b_k1:
+                    for m, (z_ref, a_k0) in z_m << a_m:
+                        for k0, (av, bv) in a_k0 & b_k0:
+                            z_ref += av * bv
+                            bodies += 1
+    except BaseException as e:      # noqa
+        if isinstance(e, KeyboardInterrupt):
+            raise
+        mon.violation(f"kernel:raised:{type(e).__name__}:tiled-twice", f"matrix-vector kernel with K tiled by {s1} then {s2} raised {type(e).__name__}: {e}")
+        return
+    mon.count("kernel_runs")
+    mon.count("tiled_twice_runs")
+    mon.count("leaf_bodies", bodies)
+    if s1 % s2:
+        mon.count("tiled_twice_inner_not_dividing_outer")
+    got = {p_: v for p_, v in content(z, 0).items() if v != 0}
+    mon.check(got == want, "result:tiled-twice" + (":inner-size-not-dividing-outer" if s1 % s2 else ""),
+              f"matrix-vector with K (extent {K}) tiled by {s1} then {s2}, loop order {'M outermost' if case['flow'] == 0 else 'tiles outermost'}: "
+              f"Z = {got}, the dense result is {want}")
+    probs = WF(z.getRoot()) + RC(z)
+    mon.check(not probs, "output:malformed:tiled-twice", f"output tensor malformed: {probs[:2]}")
+    if want:
+        mon.nontrivial()
+    mon.state(("tiled2", K, s1, s2, case["flow"], len(want)))
+
+
 def run_case(case, mon):
+    if case.get("kind") == "tiled2":
+        return _run_tiled2(case, mon)
     base = case["spec"]
     want = kernels.dense(base)
     r = random.Random(case["oseed"])
